@@ -306,3 +306,11 @@ MUTANTS = [
     M("c18-no-cleanup", WEB, "        if rate_limiter:\n            rate_limiter.cleanup()\n", "", "C18.cleanup"),
 ]
 EQUIVS = []
+
+# functions whose syntactic mutants are used for the thorough tier's sensitivity figure (sa/automut.py)
+ANCHORS = [
+    "nostr_relay.rate_limiter:RateLimiter.is_limited",
+    "nostr_relay.rate_limiter:RateLimiter.evaluate_rules",
+    "nostr_relay.rate_limiter:RateLimiter.cleanup",
+    "nostr_relay.web:NostrAPI.on_websocket",
+]
